@@ -10,7 +10,8 @@ META = dict(
          "Ledger.tla, checking ActiveValid, MostWork and FailedDeliverKeepsChain on the property model; behaviours (every "
          "edge of a small configuration + seeded simulation of a larger one) are replayed on a full-stack regnet node with "
          "the ProcessBlock result, active chain, UTXO set, per-address lists and transaction locations compared after "
-         "every delivery.",
+         "every delivery.  LedgerRestart.tla adds a restart of the node on its own data directory at any point (index and "
+         "cumulative work rebuilt from the stored chain, side-chain blocks and orphans forgotten), replayed the same way.",
     note="Unit work per block (regnet instant blocks: the difficulty is constant), nil confirmations (PoW mode); bounded by "
          "the constants in the evidence file; trusts TLC and the harness block factory (stack.NewBlock).",
     technique="TLA+ block-tree/ledger model checked by TLC + behaviour replay on a full-stack node",
@@ -28,6 +29,29 @@ def run(chk):
     sim = L.simulate(chk, "6 blocks", 3000 if thorough else 200, 14,
                      txs=["T1", "T2", "T3"], blocks=6, tpb=1, bad=1, deliver=7)
     chk.absorb(L.replay(chk, binary, behs + sim, "c12"), "replay on full-stack node")
+    # restarts: the node is stopped and started again on its data directory (LedgerRestart.tla): the block index
+    # is rebuilt from the stored headers (cumulative work!), side-chain blocks and orphans are forgotten
+    rcfg = L.cfg(["T1", "T2"], 3, 1, 0, 4, fix=L.reorg_fix_expected(), inv=L.INV_FIXED if L.reorg_fix_expected() else L.INV_ASIS,
+                 extra="ACTION_CONSTRAINT REmitLast").replace("SPECIFICATION Spec", "SPECIFICATION RSpec") \
+        .replace("VIEW view", "VIEW rview").replace("CONSTANTS\n", "CONSTANTS\n  MaxRestarts = 1\n", 1)
+    r = vf.tlc("Chain", "LedgerRestart", "r.cfg", cfg_text=rcfg, workers=1, timeout=1700)
+    vf.tlc_ok(r, "LedgerRestart exhaustive")
+    chk.add_tlc(r, "exhaustive LedgerRestart.tla: 3 blocks, 4 deliveries, one restart anywhere; complete behaviours extracted")
+
+    def rcls(b):
+        acts = [s_["act"] for s_ in b]
+        if "Restart" not in acts:
+            return "no-restart"
+        i = acts.index("Restart")
+        before = sum(1 for a in acts[:i] if a == "Deliver")
+        after_reorg = any(e[0] == "d" for s_ in b[i + 1:] for e in (s_.get("ev") or []))
+        last = b[-1].get("res", {}).get("why", "?")
+        return "restart-after-%d:%s%s" % (before, last, "+reorg" if after_reorg else "")
+    rb, st = vf.behaviours(r, limit=2500 if thorough else 160, rng=rng, per_class=150 if thorough else 8, strat_key=rcls)
+    rb = [x for x in rb if any(s_["act"] == "Restart" for s_ in x)]
+    st["label"] = "restart behaviours"
+    chk.cov.setdefault("extraction", []).append(st)
+    chk.absorb(L.replay(chk, binary, rb, "c12r"), "replay with restarts on full-stack node")
     L.selftest(chk, binary, behs)
     chk.assumptions += ["all blocks carry unit work (InstantBlock regnet parameters)", "PoW mode, nil confirmations",
                         "orphan pool and block-node pruning limits (10000 / 20160) are far above the bounds explored"]
